@@ -13,7 +13,7 @@
    (theta, is_empty, sorted keys); spec_union / spec_inter / spec_a_not_b are the set-algebra definitions. *)
 From Coq Require Import ZArith NArith List Bool Lia Permutation Sorted.
 From DS Require Import Word Murmur3 RunnerLib OpenAddr KSmallest Canon ThetaDefs ThetaProofs ThetaRefine ThetaFacts
-  ThetaSetDefs ThetaSetWf ThetaSetUnion ThetaSetInter ThetaSetANotB ThetaSetJaccard ThetaSetForms.
+  ThetaSetDefs ThetaSetWf ThetaSetUnion ThetaSetInter ThetaSetANotB ThetaSetJaccard ThetaSetForms ThetaSetErase ThetaSetPayload.
 Import ListNotations.
 Local Open Scope N_scope.
 
@@ -194,6 +194,76 @@ Section AnyPayloadAnyNthElement.
   End ApiInputs.
 End AnyPayloadAnyNthElement.
 
+(* ============================================================================================== *)
+(** Payload erasure, payloads, order flags: what property C13 (Tuple sketches) inherits from this model.
+    [erase] forgets the payloads of an input (a Tuple sketch seen as a Theta sketch); the Theta operations use their own
+    nth_element [selu] and the trivial policy. *)
+Section PayloadIndependence.
+  Variable S : Type.
+  Variable sel : nat -> list (N * S) -> list (N * S).
+  Hypothesis sel_ok : forall k l, (k < length l)%nat -> nth_post fst k l (sel k l).
+  Variable selu : nat -> list (N * unit) -> list (N * unit).
+  Hypothesis selu_ok : forall k l, (k < length l)%nat -> nth_post fst k l (selu k l).
+  Variable comb : S -> S -> S.
+  Notation input := (input S).
+  Notation obs res := (in_theta res, in_empty res, sortN (in_keys res)).
+
+  (* union / intersection / A-not-B at payload type S with ANY policy: theta, emptiness, keys, order flag and seed hash of the
+     result are those of the Theta operation on the erased inputs *)
+  Theorem C02_union_erase : forall lgk r th0 sh ins, 5 <= lgk -> Forall wf ins -> Forall (seed_ok sh) ins ->
+    exists u u1, union_fold S sel comb (union_new S lgk r th0 sh) ins = Some u /\
+      union_fold unit selu comb_unit (union_new unit lgk r th0 sh) (map erase ins) = Some u1 /\
+      forall o, let res := union_result S sel u o in let res1 := union_result unit selu u1 o in
+        obs res = obs res1 /\ in_ordered res = in_ordered res1 /\ in_seed_hash res = in_seed_hash res1.
+  Proof. exact (union_erase S sel sel_ok selu selu_ok comb). Qed.
+
+  Theorem C02_intersection_erase : forall sh ins, ins <> [] -> Forall wf ins -> Forall (theta_ok S) ins -> Forall (seed_ok sh) ins ->
+    exists x x1, inter_fold S sel comb (inter_new S sh) ins = Some x /\
+      inter_fold unit selu comb_unit (inter_new unit sh) (map erase ins) = Some x1 /\
+      forall o, exists res res1, inter_result S x o = Some res /\ inter_result unit x1 o = Some res1 /\
+        obs res = obs res1 /\ in_ordered res = in_ordered res1 /\ in_seed_hash res = in_seed_hash res1.
+  Proof. exact (inter_erase S sel selu comb). Qed.
+
+  Theorem C02_a_not_b_erase : forall sh (a b : input) o, wf a -> wf b -> in_seed_hash a = sh -> in_seed_hash b = sh ->
+    in_empty a = false -> (in_num a = 0 \/ in_empty b = false) ->
+    exists res res1, a_not_b S sh a b o = Some res /\ a_not_b unit sh (erase a) (erase b) o = Some res1 /\
+      obs res = obs res1 /\ in_ordered res = in_ordered res1 /\ in_seed_hash res = in_seed_hash res1.
+  Proof. exact (a_not_b_erase S). Qed.
+
+  (* the order flag of every result: requested || at most one entry (an empty union result is flagged ordered); A-not-B adds
+     A's own flag (C02_a_not_b_spec), and its early returns report A's flag || requested *)
+  Theorem C02_result_order_flags : forall (u : union_st S) (x : inter_st S) (a : input) o,
+    (let res := union_result S sel u o in
+     in_ordered res = (o || (length (in_entries res) <=? 1)%nat) \/ (in_empty res = true /\ in_ordered res = true /\ in_entries res = [])) /\
+    (forall res, inter_result S x o = Some res -> in_ordered res = (o || (length (in_entries res) <=? 1)%nat)) /\
+    in_ordered (compact_copy S a o) = (in_ordered a || o).
+  Proof.
+    intros u x a o. split; [apply union_result_ordered|]. split; [intros res; apply inter_result_ordered|reflexivity].
+  Qed.
+
+  (* intersection: the summary of every surviving key is the policy folded over the inputs' summaries of that key in
+     presentation order, the first input's summary being the seed — no assumption on the policy *)
+  Theorem C02_intersection_summary : forall sh ins, Forall wf ins -> Forall (theta_ok S) ins -> Forall (seed_ok sh) ins ->
+    exists x, inter_fold S sel comb (inter_new S sh) ins = Some x /\
+      forall ordered res, inter_result S x ordered = Some res ->
+        forall h v, In (h, v) (in_entries res) -> inter_summary S comb ins h = Some v.
+  Proof. exact (inter_summary_spec S sel comb). Qed.
+
+  (* A-not-B: the result holds exactly A's entries (key AND payload, verbatim) whose key is below the result theta and not in B *)
+  Theorem C02_a_not_b_payloads : forall sh (a b : input) ordered, wf a -> wf b -> in_seed_hash a = sh -> in_seed_hash b = sh ->
+    in_empty a = false -> (in_num a = 0 \/ in_empty b = false) ->
+    exists res, a_not_b S sh a b ordered = Some res /\
+      forall e, In e (in_entries res) <-> In e (in_entries a) /\ fst e < in_theta res /\ ~ In (fst e) (in_keys b).
+  Proof. exact (a_not_b_payloads S comb). Qed.
+
+  (* rvalue = lvalue: the operations are functions of the operand VALUE only *)
+  Theorem C02_operand_value_only : forall (u : union_st S) (x : inter_st S) sh (a a' b : input) o, a = a' ->
+    union_update S sel comb u a = union_update S sel comb u a' /\
+    inter_update S sel comb x a = inter_update S sel comb x a' /\
+    a_not_b S sh a b o = a_not_b S sh a' b o.
+  Proof. exact (operand_value_only S sel comb). Qed.
+End PayloadIndependence.
+
 (* the specifications themselves do not depend on the order / presentation of the inputs *)
 Theorem C02_spec_union_perm : forall S k th0 (a b : list (input S)), Permutation a b ->
   spec_union S k th0 a = spec_union S k th0 b.
@@ -293,6 +363,13 @@ Print Assumptions C02_exactly_equal_exact.
 Print Assumptions C02_ratio_bounds_exact.
 Print Assumptions C02_update_sketch_is_wf.
 Print Assumptions C02_forms_same_sample.
+Print Assumptions C02_union_erase.
+Print Assumptions C02_intersection_erase.
+Print Assumptions C02_a_not_b_erase.
+Print Assumptions C02_result_order_flags.
+Print Assumptions C02_intersection_summary.
+Print Assumptions C02_a_not_b_payloads.
+Print Assumptions C02_operand_value_only.
 Print Assumptions C02_spec_union_perm.
 Print Assumptions C02_spec_union_form_indep.
 Print Assumptions C02_spec_inter_perm.
